@@ -60,15 +60,15 @@ STREAM_TRUSTED = ["hand-written Lean decoder Model/Rfc.lean (from RFC 9639) and 
 PROPS = {
     "C01": {
         "theorem_modules": ["FlacVerif.Theorems.C01", "FlacVerif.Theorems.C01Strict", "FlacVerif.Theorems.C01Wrap"],
-        "streams": {"quick": [("stream", ["--cases", 400, "--max-samples", 6000]), ("kernel", ["--cases", 150])],
-                    "thorough": [("stream", ["--cases", 6000, "--max-samples", 40000]), ("kernel", ["--cases", 3000])],
+        "streams": {"quick": [("stream", ["--cases", 400, "--max-samples", 6000]), ("kernel", ["--cases", 150]), ("stream", ["--cases", 24, "--max-samples", 9000, "--focus", "burst"])],
+                    "thorough": [("stream", ["--cases", 6000, "--max-samples", 40000]), ("kernel", ["--cases", 3000]), ("stream", ["--cases", 1000, "--max-samples", 70000, "--focus", "burst"])],
                     "search": [("stream", ["--cases", 1500, "--max-samples", 12000])]},
         "diff_prefix": ["c01."], "oracle_fields": ["o_c01"], "class_of": stream_class, "rule": STREAM_RULE,
         "trusted_base": STREAM_TRUSTED,
         "assumptions": ["float estimator output abstracted: theorems quantify over all coefficients/shifts/orders", "source contract: read_samples delivers min(block_size, remaining) samples"],
     },
     "C02": {
-        "theorem_modules": ["FlacVerif.Theorems.C02", "FlacVerif.Theorems.C02Gen", "FlacVerif.Theorems.C01Strict"], "uses_gen": ["tables"],
+        "theorem_modules": ["FlacVerif.Theorems.C02", "FlacVerif.Theorems.C02Gen", "FlacVerif.Theorems.C02Hdr", "FlacVerif.Theorems.C01Strict"], "uses_gen": ["tables", "headers"],
         "streams": {"quick": [("stream", ["--cases", 400, "--max-samples", 6000]), ("kernel", ["--cases", 30])],
                     "thorough": [("stream", ["--cases", 6000, "--max-samples", 40000]), ("kernel", ["--cases", 300])],
                     "search": [("stream", ["--cases", 1500, "--max-samples", 12000])]},
@@ -94,8 +94,8 @@ PROPS = {
     },
     "C09": {
         "theorem_modules": ["FlacVerif.Theorems.C09", "FlacVerif.Theorems.C09Stream"],
-        "streams": {"quick": [("stream", ["--cases", 250, "--max-samples", 6000]), ("stream", ["--cases", 150, "--max-samples", 9000, "--focus", "loud"])],
-                    "thorough": [("stream", ["--cases", 4000, "--max-samples", 40000]), ("stream", ["--cases", 3000, "--max-samples", 40000, "--focus", "loud"])],
+        "streams": {"quick": [("stream", ["--cases", 250, "--max-samples", 6000]), ("stream", ["--cases", 150, "--max-samples", 9000, "--focus", "loud"]), ("stream", ["--cases", 52, "--max-samples", 9000, "--focus", "threshold"])],
+                    "thorough": [("stream", ["--cases", 4000, "--max-samples", 40000]), ("stream", ["--cases", 3000, "--max-samples", 40000, "--focus", "loud"]), ("stream", ["--cases", 520, "--max-samples", 40000, "--focus", "threshold"])],
                     "search": [("stream", ["--cases", 1500, "--max-samples", 9000, "--focus", "loud"])]},
         "diff_prefix": ["c09."], "oracle_fields": ["o_c09"], "class_of": stream_class,
         "rule": STREAM_RULE + "; plus a 'loud' focus (20/24-bit full-scale, alternating, heavy-tailed, loud/silent partition mixes, r=-l stereo; max_parameter in {0,1,2,8,14}). For every single-thread record the encoder's decision logic is REPLAYED in Lean (Model/Encode.lean: encodeFrame on the oracle log of hook 3) and must reproduce every frame byte for byte (field c09.functional); the direct oracle compares every frame's byte length with header + channels*(8+n*bps) bits + CRC",
@@ -322,9 +322,47 @@ PARSER_RULE = ("parser stream: 14+ small emitted streams covering every subframe
                "decoder panic) must equal the outcome of the Lean mirror Model/RepoParser.lean on the same bytes (debug-profile arithmetic for the dev build, wrapping for release). Direct oracle: "
                "no panic anywhere; no mutant that alters bits inside a frame is accepted with different audio. distinct = (family, width/channels, subframe kinds)")
 
+def c07_extra(run, tier, bins):
+    """'Every accepted configuration encodes every valid input without panicking': besides the probe corpus
+    of the config stream, the dev-profile build (overflow checks, debug assertions) encodes the F14 witnesses
+    and the `burst` focus of the stream generator (inputs fitted to the quantised predictor so that the
+    prediction is as large as arithmetic allows) - any panic is a failing input for C07."""
+    import os, re
+    b = bins.get("dev")
+    if not b:
+        return
+    old = getattr(run, "driver_name", "fvdriver")
+    run.driver_name = "fvdriver"
+    import subprocess
+    root = os.path.dirname(os.path.dirname(os.path.abspath(__file__)))
+    subprocess.run(["lake", "build", "fvdriver"], cwd=os.path.join(root, "lean"), stdout=subprocess.DEVNULL, stderr=subprocess.DEVNULL)
+    try:
+        for (label, args) in [("stream@dev-burst", ["--cases", 36 if tier == "quick" else 1500, "--max-samples", 9000 if tier == "quick" else 70000, "--focus", "burst"])]:
+            run.run_stream(b, "stream", args, label)
+            rec = os.path.join(os.path.dirname(os.path.dirname(os.path.abspath(__file__))), ".cache", f"{run.pid}-{label}.rec")
+            if os.path.exists(rec):
+                for line in open(rec):
+                    m = re.search(r"\bimpl=panic msg=(\S+)", line)
+                    if m:
+                        run.oracle_fails.append((label, line.rstrip("\n"), "o_c07=fail:panic_on_valid_input_with_verified_configuration:" + m.group(1)))
+    finally:
+        run.driver_name = old
+
+
+def c10_extra(run, tier, bins):
+    """The experimental estimators (direct MSE, IRLS-MAE) have per-thread state too: the history stream is
+    run once more in a build with the `experimental` feature, with configurations that enable them."""
+    b, err = run.build_harness("release", features="par,serde,log,decode,experimental")
+    if err:
+        run.proof_problems.append(err)
+        return
+    run.programs += 1
+    run.run_stream(b, "history", ["--cases", 40 if tier == "quick" else 1500], "history@experimental", env={"FVH_EXPERIMENTAL": "1"})
+
+
 PROPS.update({
     "C16": {
-        "theorem_modules": ["FlacVerif.Theorems.C16crc", "FlacVerif.Theorems.C16", "FlacVerif.Theorems.C02Gen"], "uses_gen": ["tables"],
+        "theorem_modules": ["FlacVerif.Theorems.C16crc", "FlacVerif.Theorems.C16", "FlacVerif.Theorems.C02Gen", "FlacVerif.Theorems.C02Hdr"], "uses_gen": ["tables", "headers"],
         "streams": {"quick": [("parser", ["--cases", 14, "--burst-stride", 40, "--random", 1500])],
                     "thorough": [("parser", ["--cases", 40, "--burst-stride", 1, "--random", 200000])],
                     "search": [("parser", ["--cases", 30, "--burst-stride", 4, "--random", 20000])]},
@@ -346,7 +384,7 @@ CONFIG_RULE = ("config stream: corpus (F2: partitions 0 / 1000, max_order 7; F13
 
 PROPS.update({
     "C07": {
-        "driver": "fvconfig", "uses_gen": ["constants", "config"],
+        "driver": "fvconfig", "uses_gen": ["constants", "config"], "extra": c07_extra,
         "theorem_modules": ["FlacVerif.Theorems.C07", "FlacVerif.Theorems.C07Total"],
         "streams": {"quick": [("config", ["--cases", 150])], "thorough": [("config", ["--cases", 800, "--thorough"])], "search": [("config", ["--cases", 800, "--thorough"])]},
         "profiles": {"quick": ["release", "dev"], "thorough": ["release", "dev"]},
@@ -374,6 +412,7 @@ HISTORY_RULE = ("history stream: corpus (F7: Tukey alpha 0.0, 1e-6, 0.4, 0.40001
 
 PROPS.update({
     "C10": {
+        "extra": c10_extra,
         "streams": {"quick": [("history", ["--cases", 60]), ("kernel", ["--cases", 120])],
                     "thorough": [("history", ["--cases", 3000]), ("kernel", ["--cases", 1500])],
                     "search": [("history", ["--cases", 600])]},
@@ -383,6 +422,7 @@ PROPS.update({
         "assumptions": ["stable (fakesimd) build; the simd-nightly path of weighted_delay_prod_sum_impl splits by heap alignment (read only, noted in DESIGN.md)"],
     },
     "C15": {
+        "theorem_modules": ["FlacVerif.Theorems.C15", "FlacVerif.Theorems.C02Hdr"], "uses_gen": ["headers"],
         "streams": {"quick": [("parser", ["--cases", 14, "--burst-stride", 64, "--random", 200]), ("stream", ["--cases", 150, "--max-samples", 5000]), ("comp", ["--cases", 100])],
                     "thorough": [("parser", ["--cases", 40, "--burst-stride", 16, "--random", 2000]), ("stream", ["--cases", 4000, "--max-samples", 40000]), ("comp", ["--cases", 3000])],
                     "search": [("stream", ["--cases", 1000, "--max-samples", 9000])]},
